@@ -88,6 +88,7 @@ type DynSpec struct {
 	Pkg       string
 	Preserves []string // Type.field list or "*"
 	Why       string
+	Pure      bool
 }
 
 type ChanSpec struct {
@@ -446,6 +447,15 @@ func (cs *Contracts) parseFile(path, pkg string) error {
 			cs.WLs = append(cs.WLs, &Whitelist{Kind: "layout", Label: head[0], Target: head[1], Allowed: splitList(rest[i+1:]), Props: props, Pkg: pkg, File: path, Line: d.line})
 		case "dyncall":
 			// dyncall Iface.Method preserves A.f, B.g because ...
+			// dyncall Iface.Method pure because ...      (no writes; result is a function of the receiver)
+			if j := strings.Index(rest, " pure"); j >= 0 && !strings.Contains(rest, " preserves ") {
+				ds := &DynSpec{Method: strings.TrimSpace(rest[:j]), Pkg: pkg, Pure: true}
+				if k := strings.Index(rest, " because "); k >= 0 {
+					ds.Why = strings.TrimSpace(rest[k+9:])
+				}
+				cs.Dyn = append(cs.Dyn, ds)
+				break
+			}
 			i := strings.Index(rest, " preserves ")
 			if i < 0 {
 				return fmt.Errorf("%s:%d: bad dyncall", path, d.line)
